@@ -25,6 +25,9 @@ func vMkConfig(name string, n int, index, term uint64) Config {
 		vAssume(vNot(vAnd(nd.Action == Demote, !nd.Voter)))
 		c.Nodes[id] = nd
 	}
+	// every configuration ever adopted keeps a voter with no pending action (onChangeConfig demands it of requests,
+	// and no action touches such a voter); C08's harnesses assert it of every configuration they see appended
+	vAssume(vHasPlainVoter(c))
 	return c
 }
 
